@@ -32,6 +32,126 @@ JudgeRepair(e) ==
      ELSE IF e.mutated /\ SeqToSet(e.removed) # (Originals(e) \ rec) THEN "surplus-atoms-of-the-old-residue-not-removed"
      ELSE "ok"
 
+-----------------------------------------------------------------------------
+(* The reference of a residue that carries requests, and the judgement of a repair by NAMES (real structures, C04; the
+   "after repair" clause of C19 on real command-line runs).
+   block  == [name, names : Seq(STRING), els : Seq(Int), edges : Seq(<<i, j>>)]              indices into names
+   modif  == [name, names, els, ptm : Seq(BOOLEAN), edges]      ptm[i] = TRUE: atom the modification adds; FALSE: anchor
+   The reference is the block named by the (single) requested mutation, else by the residue name, patched in request
+   order with every requested modification other than "none": anchors are identified with the block atoms of the same
+   name, the added atoms are appended, and every bond of the modification that touches an added atom is added.       *)
+HasName(names, nm) == \E i \in DOMAIN names : names[i] = nm
+IdxOf(names, nm) == CHOOSE i \in DOMAIN names : names[i] = nm
+UniqueNames(names) == \A i, j \in DOMAIN names : i # j => names[i] # names[j]
+LibHas(lib, nm) == \E i \in DOMAIN lib : lib[i].name = nm
+LibGet(lib, nm) == lib[CHOOSE i \in DOMAIN lib : lib[i].name = nm]
+AllEqual(s) == \A i, j \in DOMAIN s : s[i] = s[j]
+
+BlockHasEdge(b, i, j) == \E k \in DOMAIN b.edges : (b.edges[k][1] = i /\ b.edges[k][2] = j) \/ (b.edges[k][1] = j /\ b.edges[k][2] = i)
+\* a modification fits a block when its anchors are atoms of the block (by name) bonded in the block as in the modification
+ModFits(b, m) ==
+  /\ \A i \in DOMAIN m.names : ~m.ptm[i] => HasName(b.names, m.names[i])
+  /\ \A k \in DOMAIN m.edges : (~m.ptm[m.edges[k][1]] /\ ~m.ptm[m.edges[k][2]])
+        => BlockHasEdge(b, IdxOf(b.names, m.names[m.edges[k][1]]), IdxOf(b.names, m.names[m.edges[k][2]]))
+Patch(b, m) ==
+  LET addIdx == SelectSeq([i \in DOMAIN m.names |-> i], LAMBDA i : m.ptm[i])          \* added atoms, in the modification's order
+      pos(i) == IF m.ptm[i] THEN Len(b.names) + (CHOOSE k \in DOMAIN addIdx : addIdx[k] = i) ELSE IdxOf(b.names, m.names[i])
+      touching == SelectSeq(m.edges, LAMBDA ed : m.ptm[ed[1]] \/ m.ptm[ed[2]])
+  IN [name |-> b.name, names |-> b.names \o [k \in DOMAIN addIdx |-> m.names[addIdx[k]]],
+      els |-> b.els \o [k \in DOMAIN addIdx |-> m.els[addIdx[k]]],
+      ptm |-> b.ptm \o [k \in DOMAIN addIdx |-> TRUE],            \* atoms a modification added stay marked as such (PTM_atom)
+      edges |-> b.edges \o [k \in DOMAIN touching |-> <<pos(touching[k][1]), pos(touching[k][2])>>]]
+RECURSIVE PatchAll(_, _)
+PatchAll(b, ms) == IF ms = <<>> THEN b ELSE PatchAll(Patch(b, Head(ms)), Tail(ms))
+RECURSIVE AllFit(_, _)
+AllFit(b, ms) == ms = <<>> \/ (ModFits(b, Head(ms)) /\ AllFit(Patch(b, Head(ms)), Tail(ms)))
+
+\* e.resname, e.muts / e.mods : the marks the residue carries (request order); e.blocks / e.modlib : force-field records
+Requested(e) == e.muts # <<>> \/ e.mods # <<>>
+TargetName(e) == IF e.muts # <<>> THEN e.muts[1] ELSE e.resname
+WantedMods(e) == LET ms == SelectSeq(e.mods, LAMBDA nm : nm # "none") IN [k \in DOMAIN ms |-> LibGet(e.modlib, ms[k])]
+PlainBlock(b) == [name |-> b.name, names |-> b.names, els |-> b.els, edges |-> b.edges, ptm |-> [i \in DOMAIN b.names |-> FALSE]]
+RefOf(e) == PatchAll(PlainBlock(LibGet(e.blocks, TargetName(e))), WantedMods(e))
+AsGraph(b) == [nodes |-> [i \in DOMAIN b.names |-> <<i, b.els[i]>>], edges |-> [k \in DOMAIN b.edges |-> <<b.edges[k][1], b.edges[k][2], 0>>]]
+
+\* a certificate: pairs <<atom of R, name of a reference atom>> claimed to be a common induced subgraph; used as a lower bound
+\* of the largest match only after TLC has verified the claim
+CertOK(ref, G, R, cert) ==
+  /\ \A i \in DOMAIN cert : cert[i][1] \in NodeSet(R) /\ HasName(ref.names, cert[i][2])
+  /\ \A i, j \in DOMAIN cert : i # j => (cert[i][1] # cert[j][1] /\ cert[i][2] # cert[j][2])
+  /\ \A i \in DOMAIN cert : Colour(R, cert[i][1]) = Colour(G, IdxOf(ref.names, cert[i][2]))
+  /\ \A i, j \in DOMAIN cert : i # j => Adj(R, cert[i][1], cert[j][1]) = Adj(G, IdxOf(ref.names, cert[i][2]), IdxOf(ref.names, cert[j][2]))
+
+(* e.out : Seq([id, name, ptm : BOOLEAN, resname]) the atoms of the residue after the repair (surviving input atoms and new ones);
+   e.edges : bonds inside the residue afterwards; e.cert as above; e.exact : compute the largest common subgraph exactly *)
+JudgeRepairX(e) ==
+  IF e.muts # <<>> /\ ~AllEqual(e.muts) THEN "unjudged:conflicting-mutations"
+  ELSE IF ~LibHas(e.blocks, TargetName(e)) THEN "unjudged:no-block"
+  ELSE IF \E i \in DOMAIN e.mods : e.mods[i] # "none" /\ ~LibHas(e.modlib, e.mods[i]) THEN "unjudged:no-modification"
+  ELSE IF ~AllFit(PlainBlock(LibGet(e.blocks, TargetName(e))), WantedMods(e)) THEN "unjudged:modification-does-not-fit-the-block"
+  ELSE
+  LET ref == RefOf(e)
+      G == AsGraph(ref)
+      orig == NodeSet(e.R)
+      named(o) == HasName(ref.names, o.name)
+      keptOrig == SelectSeq(e.out, LAMBDA o : o.id \in orig)
+      \* a residue carrying a request keeps only atoms of its reference (a modification's own atoms stay marked); any other
+      \* residue keeps every atom and marks those it does not recognise
+      recog == IF Requested(e) THEN SelectSeq(keptOrig, LAMBDA o : named(o)) ELSE SelectSeq(keptOrig, LAMBDA o : ~o.ptm /\ named(o))
+      fresh == SelectSeq(e.out, LAMBDA o : o.id \notin orig)
+      outIds == {e.out[i].id : i \in DOMAIN e.out}
+      e2 == [Ref |-> G, R |-> e.R,
+             assigned |-> [k \in DOMAIN recog |-> <<recog[k].id, IdxOf(ref.names, recog[k].name)>>],
+             flagged |-> IF Requested(e) THEN <<>> ELSE LET f == SelectSeq(keptOrig, LAMBDA o : o.ptm) IN [k \in DOMAIN f |-> f[k].id],
+             removed |-> SetToSeq(orig \ outIds),
+             added |-> [k \in DOMAIN fresh |-> <<fresh[k].id, IdxOf(ref.names, fresh[k].name)>>],
+             edges |-> e.edges, exact |-> e.exact,
+             planted |-> LET c == SelectSeq(e.cert, LAMBDA p : HasName(ref.names, p[2])) IN IF CertOK(ref, G, e.R, c) THEN Len(c) ELSE 0,
+             mutated |-> Requested(e)]
+  IN IF ~UniqueNames(ref.names) THEN "unjudged:reference-names-not-unique"
+     ELSE IF \E i, j \in DOMAIN e.out : i # j /\ e.out[i].id = e.out[j].id THEN "atom-listed-twice"
+     ELSE IF Requested(e) /\ \E k \in DOMAIN keptOrig : ~named(keptOrig[k]) THEN "surplus-atoms-of-the-old-residue-not-removed"
+     ELSE IF ~Requested(e) /\ \E k \in DOMAIN keptOrig : ~keptOrig[k].ptm /\ ~named(keptOrig[k]) THEN "atom-neither-marked-unrecognised-nor-given-a-block-name"
+     ELSE IF \E k \in DOMAIN fresh : ~named(fresh[k]) THEN "added-atom-is-not-a-block-atom"
+     ELSE IF \E k \in DOMAIN fresh : fresh[k].ptm # ref.ptm[IdxOf(ref.names, fresh[k].name)] THEN "added-atom-wrongly-marked"
+     ELSE IF Requested(e) /\ \E k \in DOMAIN keptOrig : keptOrig[k].ptm # ref.ptm[IdxOf(ref.names, keptOrig[k].name)] THEN "atom-of-the-requested-residue-wrongly-marked"
+     ELSE IF Requested(e) /\ \E i \in DOMAIN e.out : e.out[i].resname # ref.name THEN "residue-not-renamed-to-the-requested-block"
+     ELSE LET v == JudgeRepair(e2) IN
+          IF v # "ok" THEN v
+          ELSE IF \E a, b \in orig \cap outIds : a # b /\ FinalAdj(e, a, b) # Adj(e.R, a, b) /\ (\E k \in DOMAIN keptOrig : keptOrig[k].id \in {a, b} /\ keptOrig[k].ptm)
+               THEN "bond-of-an-unrecognised-atom-changed"
+          ELSE "ok"
+\* what the verdict rests on: was the certificate accepted, how many atoms recognised / re-added / marked / removed
+NoteRepairX(e) ==
+  IF (e.muts # <<>> /\ ~AllEqual(e.muts)) \/ ~LibHas(e.blocks, TargetName(e)) \/ (\E i \in DOMAIN e.mods : e.mods[i] # "none" /\ ~LibHas(e.modlib, e.mods[i]))
+  THEN "-"
+  ELSE IF ~AllFit(PlainBlock(LibGet(e.blocks, TargetName(e))), WantedMods(e)) THEN "-"
+  ELSE LET ref == RefOf(e) IN IF CertOK(ref, AsGraph(ref), e.R, e.cert) THEN "cert" ELSE "nocert"
+
+(* the molecule around the residues: bonds between input atoms that survive are untouched, a new atom is bonded only inside its residue
+   e.atoms : Seq([id, res, orig : BOOLEAN, present : BOOLEAN]); e.inEdges / e.outEdges : Seq(<<a, b>>) with a < b *)
+JudgeMolecule(e) ==
+  LET info(a) == e.atoms[CHOOSE i \in DOMAIN e.atoms : e.atoms[i].id = a]
+      ids == {e.atoms[i].id : i \in DOMAIN e.atoms}
+      inS == SeqToSet(e.inEdges)
+      outS == SeqToSet(e.outEdges)
+  IN IF \E ed \in outS : ed[1] \notin ids \/ ed[2] \notin ids THEN "bond-to-an-atom-outside-the-molecule"
+     ELSE IF \E ed \in inS : info(ed[1]).present /\ info(ed[2]).present /\ ed \notin outS THEN "bond-between-input-atoms-lost"
+     ELSE IF \E ed \in outS : info(ed[1]).orig /\ info(ed[2]).orig /\ ed \notin inS THEN "bond-between-input-atoms-created"
+     ELSE IF \E ed \in outS : (~info(ed[1]).orig \/ ~info(ed[2]).orig) /\ info(ed[1]).res # info(ed[2]).res THEN "new-atom-bonded-outside-its-residue"
+     ELSE "ok"
+
+(* residue names unknown to the force field: with delete_unknown the molecule holding such a residue is dropped with one
+   warning, every other molecule is kept
+   e.mols : Seq(Seq(resname)), e.known : Seq(resname) (the names among them that are blocks), e.kept : Seq(molecule index), e.warnings *)
+JudgeUnknown(e) ==
+  LET ok(k) == \A i \in DOMAIN e.mols[k] : e.mols[k][i] \in SeqToSet(e.known)
+      want == {k \in DOMAIN e.mols : ok(k)}
+  IN IF SeqToSet(e.kept) # want THEN (IF \E k \in want : k \notin SeqToSet(e.kept) THEN "molecule-of-known-residues-dropped" ELSE "molecule-with-unknown-residue-kept")
+     ELSE IF Len(e.kept) # Cardinality(want) THEN "molecule-kept-twice"
+     ELSE IF e.warnings # Len(e.mols) - Cardinality(want) THEN "unknown-residue-warnings-differ-from-dropped-molecules"
+     ELSE "ok"
+
 (* presentation independence: two presentations of one residue; pi maps atoms of presentation 1 to atoms of presentation 2 *)
 JudgeTwin(e) ==
   LET m1 == AssignedMap(e.one)  m2 == AssignedMap(e.two)
